@@ -1461,7 +1461,15 @@ def C06_cover(c):
     CLOSE = op("close")
     cover.cover_unichan(c, "unichan_close", [[S(11)], [CLOSE], [DRIVE(0, max_=9), DROPS(0)]], l1, invariants=UNICHAN_CLOSE_INV, max_paths=4000 if quick else None)
     cover.cover_unichan(c, "unichan_close_buffered", [[S(11), S(12), CLOSE], [DRIVE(0, max_=9), DROPS(0)]], l1, invariants=UNICHAN_CLOSE_INV, max_paths=2500 if quick else None)
+    # the same protocol on the Arc-based atomic Multi channel (MultiChan, L2): the pending count is the longest of the listed listeners' rings
+    m_inv = tuple(MCH_STRUCT) + ("InvNoDuplicates", "InvProducerOrder", "InvNothingOld", "InvCancelEnds", "InvCloseWaits", "InvClosedAfterwards")
+    m_l1 = ["InvCloseWaits", "InvClosedAfterwards", "InvAtMostOncePerListener", "InvNoInvention", "NoPanic"]
+    cover.cover_multichan(c, "multichan_close", [[S(11)], [CLOSE], [DRIVE(0, max_=9), DROPS(0)]], m_l1, initial=1, invariants=m_inv, max_paths=1500 if quick else None)
     if not quick:
+        cover.cover_multichan(c, "multichan_ogre_close", [[S(11)], [CLOSE], [DRIVE(0, max_=9), DROPS(0)]], m_l1 + ["InvNoUseAfterFree"], initial=1, kind="ogre", max_paths=20000,
+                              invariants=m_inv + ("InvNoUseAfterFree", "InvPoolBounds"))
+        c.mc("MC_MultiChan", "close2", multichan(4, 2), subst={"Script": "Script_close2"}, invariants=list(m_inv), deadlock=False,
+             required_actions=["CloseLenHead", "CloseWakePeek", "CloseRunLoad", "CloseOpenRead", "MCSlept"], timeout=2400, workers=10, heap="12g")
         cover.cover_unichan(c, "unichan_close_2ev", [[S(11), S(12)], [CLOSE], [DRIVE(0, max_=9), DROPS(0)]], l1, invariants=UNICHAN_CLOSE_INV, max_paths=30000)
         # two streams racing for one event while close runs (3.3 M states): design-level verdict only, too large for a graph dump
         kf = kf_open(KF_SPURIOUS_EMPTY) is not None
